@@ -527,10 +527,13 @@ IO_INPUTS = {
         ("loc_f16", "enable f16;\n", "@location(0) v: f16", "f32(v)"),
         ("loc_vec2_f16", "enable f16;\n", "@location(0) v: vec2<f16>", "f32(dot(v, v))"),
         ("loc_vec4_f16", "enable f16;\n", "@location(0) v: vec4<f16>", "f32(dot(v, v))"),
+        ("loc_vec4_f16_component", "enable f16;\n", "@location(0) v: vec4<f16>", "f32(v.w)"),
+        ("loc_vec2_f16_index", "enable f16;\n", "@location(0) v: vec2<f16>", "f32(v[1])"),
         ("sample_mask", "", "@builtin(sample_mask) v: u32", "f32(v)"),
         ("sample_index", "", "@builtin(sample_index) v: u32", "f32(v)"),
         ("front_facing", "", "@builtin(front_facing) v: bool", "select(1.0, 2.0, v)"),
         ("struct_f16", "enable f16;\nstruct In { @location(0) h: vec2<f16>, @location(1) g: f32 }\n", "v: In", "(f32(dot(v.h, v.h)) + v.g)"),
+        ("struct_f16_component", "enable f16;\nstruct In { @location(0) h: vec2<f16>, @location(1) g: f32 }\n", "v: In", "(f32(v.h.x) + v.g)"),
         ("struct_mask", "struct In { @builtin(sample_mask) m: u32, @location(1) g: f32 }\n", "v: In", "(f32(v.m) + v.g)"),
     ],
     "vertex": [
